@@ -286,6 +286,66 @@ func runC18(p *an.Prog, r *an.Run, tier string) {
 			bad = append(bad, "the pool's InvalidPeers list is modified at "+p.Pos(st.Pos())+" outside strict mode: peers the pool did not declare invalid would be dropped (or declared ones kept)")
 		}
 	})
+	// strict mode always rebuilds: from the true edge of the StrictPeers test no path reaches the un-trust/disconnect
+	// calls without passing a (non-loop) replacement of InvalidPeers — an extra condition on the rebuild ("only when
+	// the pool lists active peers") leaves every local peer in place exactly when none of them is listed
+	an.AllInstrs(up, func(in ssa.Instruction) {
+		iff, ok := in.(*ssa.If)
+		if !ok {
+			return
+		}
+		v, trueIdx := iff.Cond, 0
+		for {
+			u, isNot := v.(*ssa.UnOp)
+			if !isNot || u.Op != token.NOT {
+				break
+			}
+			v, trueIdx = u.X, 1-trueIdx
+		}
+		if !isStrict(v) {
+			return
+		}
+		isRebuildStore := func(x ssa.Instruction) bool {
+			st, ok := x.(*ssa.Store)
+			if !ok || onCycle(st.Block()) {
+				return false
+			}
+			fv := an.FieldOf(st.Addr)
+			return fv != nil && fv.Name() == "InvalidPeers"
+		}
+		isRebuild := func(x ssa.Instruction) bool {
+			if isRebuildStore(x) {
+				return true
+			}
+			// the block extracted into a helper: a call whose callee replaces the list on every path to its return
+			c, ok := x.(*ssa.Call)
+			if !ok {
+				return false
+			}
+			cal := c.Common().StaticCallee()
+			if cal == nil || !p.InRepo(cal) || len(cal.Blocks) == 0 {
+				return false
+			}
+			has := false
+			an.AllInstrs(cal, func(y ssa.Instruction) {
+				if isRebuildStore(y) {
+					has = true
+				}
+			})
+			return has && an.PathAvoiding(cal, nil, isRebuildStore, an.IsReturn, nil) == nil
+		}
+		isDrop := func(x ssa.Instruction) bool {
+			c, ok := x.(ssa.CallInstruction)
+			if !ok {
+				return false
+			}
+			f := an.CallObj(c)
+			return f != nil && (f.Name() == "RemoveTrustedPeer" || f.Name() == "DisconnectPeer")
+		}
+		if hit := pathFromBlock(up, iff.Block().Succs[trueIdx], isRebuild, isDrop); hit != nil {
+			bad = append(bad, "with StrictPeers set (test at "+p.Pos(iff.Pos())+") the un-trust/disconnect at "+p.Pos(hit.Pos())+" can be reached without the invalid list having been rebuilt from the local peers: strict mode is skipped under some further condition, and peers the pool does not list stay connected")
+		}
+	})
 	// strict rebuild: in UpdatePeers under StrictPeers, or in helpers called from there
 	strictFns := map[*ssa.Function]bool{}
 	for _, c := range an.Calls(up, false) {
@@ -922,6 +982,25 @@ func blockIsCtrl(b *ssa.BasicBlock, pred func(ssa.Value) bool, want bool) bool {
 }
 
 // loopHeader returns the innermost loop header dominating b (a dominator of b that has a back edge), or nil.
+// onCycle: b lies on a cycle of the flow graph (it is inside a loop body, not merely after one).
+func onCycle(b *ssa.BasicBlock) bool {
+	seen := map[*ssa.BasicBlock]bool{}
+	work := append([]*ssa.BasicBlock{}, b.Succs...)
+	for len(work) > 0 {
+		x := work[len(work)-1]
+		work = work[:len(work)-1]
+		if x == b {
+			return true
+		}
+		if seen[x] {
+			continue
+		}
+		seen[x] = true
+		work = append(work, x.Succs...)
+	}
+	return false
+}
+
 func loopHeader(b *ssa.BasicBlock) *ssa.BasicBlock {
 	for x := b; x != nil; x = x.Idom() {
 		for _, pr := range x.Preds {
